@@ -155,6 +155,11 @@ fn parse(text: &str) -> Parse {
                 }
             }
 
+            // Comments may also be the last lines of a paragraph
+            if self.current().is_none() || self.current() == Some(NEWLINE) {
+                return;
+            }
+
             self.builder.start_node(ENTRY.into());
 
             // First, parse the key and colon
